@@ -164,7 +164,7 @@ impl SubCheckT for Dimacs {
     const NAME: &'static str = "dimacs";
     const RULE: &'static str = "DIMACS text generated from a clause list: header counts right or wrong but >= 1 (a bare 0 is the clause terminator for the third-party lexer), comment lines before/between/after, arbitrary spaces/tabs/newlines/CRLF between tokens, clauses split across lines, empty clauses, optional missing final 0: Cnf::from_dimacs yields exactly the generating clause sets (file variable i = label i-1) and hence the same models; LogicalExpr::from_dimacs (>=1 clause, no empty clause) evaluates, under its documented 1-based labels, to the same truth table; printing with to_dimacs behind a header and re-parsing returns the same clause sets in the same order. Non-trivial: >=3 variables and >=2 clauses with >=2 literals";
     fn cases(tier: Tier) -> u32 {
-        tier.pick(5000, 150_000)
+        tier.pick(10_000, 150_000)
     }
     fn strategy(_tier: Tier) -> BoxedStrategy<DimacsCase> {
         (
@@ -254,7 +254,7 @@ impl SubCheckT for Sexpr {
     const NAME: &'static str = "sexpr";
     const RULE: &'static str = "s-expression text printed from a random AST (7 connectives, depth <= 5, no constants) over distinct names [A-Za-z_][A-Za-z0-9_]{0,5} or digit strings (never a keyword) with random whitespace between siblings: serde_sexpr -> LogicalExpr::from_sexpr evaluated (harness evaluator) under the documented lexicographic name->index numbering equals the AST evaluated by name; variable_mapping is that numbering. Non-trivial: >=3 distinct variables and >=2 connectives";
     fn cases(tier: Tier) -> u32 {
-        tier.pick(4000, 120_000)
+        tier.pick(8000, 120_000)
     }
     fn strategy(_tier: Tier) -> BoxedStrategy<SexprCase> {
         (1u8..=6)
@@ -337,7 +337,7 @@ impl SubCheckT for JsonBdd {
     const NAME: &'static str = "json_bdd";
     const RULE: &'static str = "every entry of a BDD pool built by a <=30-op history (constants, literals, shared nodes, complemented roots and edges): serde_json of BDDSerializer::from_bdd, read by the harness's own reader as nodes[i] = {topvar, low, high} with pointers True / False / {Ptr:{index, compl}} (children defined before use), denotes the walked and the oracle truth table and lists exactly the reachable nodes. Non-trivial: a diagram with a shared node or a complemented edge";
     fn cases(tier: Tier) -> u32 {
-        tier.pick(1500, 50_000)
+        tier.pick(3000, 50_000)
     }
     fn strategy(_tier: Tier) -> BoxedStrategy<JsonBddCase> {
         (cfg_strategy(6), ops_strategy(30)).prop_map(|(cfg, ops)| JsonBddCase { cfg, ops }).boxed()
@@ -427,7 +427,7 @@ impl SubCheckT for JsonSdd {
     const NAME: &'static str = "json_sdd_vtree";
     const RULE: &'static str = "every entry of an SDD pool (random vtree <=6 variables, compression on/off, <=25 ops): serde_json of SDDSerializer::from_sdd read as nodes[i] = [{prime, sub}] with pointers True / False / {Literal:{label,polarity}} / {Ptr:{index,compl}} denotes the walked and oracle truth table and lists the reachable nodes; VTreeSerializer output read as Leaf/Node{left,right} equals the vtree. Non-trivial: an SDD with >=2 internal nodes or a complemented root";
     fn cases(tier: Tier) -> u32 {
-        tier.pick(1500, 50_000)
+        tier.pick(3000, 50_000)
     }
     fn strategy(_tier: Tier) -> BoxedStrategy<JsonSddCase> {
         (
